@@ -56,6 +56,15 @@ def gen(ctx):
         else:              # small values (multipliers matter)
             v = [Fr(ctx.rng.randint(1, 6), den * 4) for _ in range(n)]
         vs.append(v)
+    # very small p-values (1e-20 .. 1e-300): distinct values that 1 - p cannot tell apart; compared in purely relative terms
+    for _ in range(ctx.n(60, 600)):
+        n = ctx.rng.randint(2, 7); e = ctx.rng.choice([20, 20, 17, 60, 300])
+        v = [Fr(ctx.rng.randint(1, 9), 10**e) for _ in range(n)]
+        if ctx.rng.random() < 0.5:
+            v[ctx.rng.randrange(n)] = Fr(ctx.rng.randint(1, 9), 10)
+        if ctx.rng.random() < 0.2:
+            v[ctx.rng.randrange(n)] = Fr(0)
+        vs.append(v)
     # long vectors (lengths on and just past powers of two), ties and values above 1/n
     for _ in range(ctx.n(5, 40)):
         n = ctx.rng.choice([32, 33, 64, 65, 257, 1025, 4097])
@@ -88,7 +97,9 @@ def run(ctx):
                 bad = {"method": m, "error": r[1:]}; break
             out = [float(t) for t in r[1]]
             want = textbook(exact, m)
-            if len(out) != len(want) or not all(close(a, b) for a, b in zip(out, want)):
+            tiny = any(0 < x < Fr(1, 10**15) for x in exact)
+            cl = (lambda a, b: abs(Fr(a) - b) <= Fr(1, 10**9) * b) if tiny else close      # no absolute tolerance for tiny p-values
+            if len(out) != len(want) or not all(cl(a, b) for a, b in zip(out, want)):
                 bad = {"method": m, "returned": out, "textbook": [float(t) for t in want]}; break
             # equal raw p-values receive equal adjusted values; order preserved (pairwise for short vectors; for long ones
             # the elementwise comparison with the textbook values above already implies both)
